@@ -48,4 +48,82 @@ theorem get_set_ne (m : List (K × V)) (k k' : K) (v : V) (h : k ≠ k') : get (
 
 @[simp] theorem get_nil (k : K) : get ([] : List (K × V)) k = none := rfl
 
+
+/-! keys are unique in maps built by `set` -/
+def NodupKeys (m : List (K × V)) : Prop := (m.map Prod.fst).Nodup
+
+theorem mem_erase {m : List (K × V)} {k k' : K} {v : V} (h : (k', v) ∈ erase m k) : (k', v) ∈ m ∧ k' ≠ k := by
+  induction m with
+  | nil => simp [erase] at h
+  | cons p rest ih =>
+    obtain ⟨k0, v0⟩ := p
+    by_cases hk : k0 = k
+    · simp only [erase, hk, if_true] at h
+      have := ih h
+      exact ⟨List.mem_cons_of_mem _ this.1, this.2⟩
+    · simp only [erase, hk, if_false, List.mem_cons] at h
+      rcases h with h | h
+      · cases h; exact ⟨by simp, hk⟩
+      · have := ih h
+        exact ⟨List.mem_cons_of_mem _ this.1, this.2⟩
+
+theorem nodup_erase {m : List (K × V)} (k : K) (h : NodupKeys m) : NodupKeys (erase m k) := by
+  induction m with
+  | nil => exact h
+  | cons p rest ih =>
+    obtain ⟨k0, v0⟩ := p
+    unfold NodupKeys at h ih ⊢
+    simp only [List.map_cons, List.nodup_cons] at h
+    by_cases hk : k0 = k
+    · simp only [erase, hk, if_true]; exact ih h.2
+    · simp only [erase, hk, if_false, List.map_cons, List.nodup_cons]
+      refine ⟨?_, ih h.2⟩
+      intro hm
+      apply h.1
+      rw [List.mem_map] at hm ⊢
+      obtain ⟨⟨k1, v1⟩, hm1, hk1⟩ := hm
+      exact ⟨(k1, v1), (mem_erase hm1).1, hk1⟩
+
+theorem nodup_set {m : List (K × V)} (k : K) (v : V) (h : NodupKeys m) : NodupKeys (set m k v) := by
+  unfold set NodupKeys
+  simp only [List.map_cons, List.nodup_cons]
+  refine ⟨?_, nodup_erase k h⟩
+  intro hm
+  rw [List.mem_map] at hm
+  obtain ⟨⟨k1, v1⟩, hm1, hk1⟩ := hm
+  exact (mem_erase hm1).2 hk1
+
+theorem get_none_of_not_mem {m : List (K × V)} {k : K} (h : k ∉ m.map Prod.fst) : get m k = none := by
+  induction m with
+  | nil => rfl
+  | cons p rest ih =>
+    obtain ⟨k0, v0⟩ := p
+    simp only [List.map_cons, List.mem_cons, not_or] at h
+    have : ¬ k0 = k := fun e => h.1 e.symm
+    simp [get, this, ih h.2]
+
+/-- on a map with unique keys, filtering by value commutes with lookup -/
+theorem get_filter {m : List (K × V)} (P : V → Bool) (h : NodupKeys m) (k : K) :
+    get (m.filter (fun p => P p.2)) k = (get m k).filter P := by
+  induction m with
+  | nil => rfl
+  | cons p rest ih =>
+    obtain ⟨k0, v0⟩ := p
+    unfold NodupKeys at h
+    simp only [List.map_cons, List.nodup_cons] at h
+    by_cases hk : k0 = k
+    · subst hk
+      have hn : get rest k0 = none := get_none_of_not_mem h.1
+      by_cases hp : P v0 = true
+      · simp [List.filter, hp, get, Option.filter]
+      · simp only [List.filter, hp, get, if_true]
+        rw [ih h.2, hn]; simp [Option.filter, hp]
+    · by_cases hp : P v0 = true
+      · simp [List.filter, hp, get, hk, ih h.2]
+      · simp [List.filter, hp, get, hk, ih h.2]
+
+theorem nodup_filter {m : List (K × V)} (P : K × V → Bool) (h : NodupKeys m) : NodupKeys (m.filter P) := by
+  unfold NodupKeys at *
+  exact List.Nodup.sublist (List.Sublist.map _ List.filter_sublist) h
+
 end AMap
